@@ -51,7 +51,8 @@ DayClauses(i) ==
       hasp == e.s = 0 /\ i > 1 /\ Rec[i - 1].k = "d" /\ Rec[i - 1].ok = 1 /\ e.ok = 1 /\ e.j = Rec[i - 1].j + 1
       p == Rec[i - 1]
   IN
-  [ assigned |-> e.ok = 1,
+  [ civil     |-> Valid(e.y, e.m, e.d) /\ e.j = JDN(e.y, e.m, e.d),
+    assigned |-> e.ok = 1,
     bracket  |-> e.ok = 1 => (e.tj <= e.j /\ (e.nj < 0 \/ e.j < e.nj)),
     (* the day a term starts on is one and the same whether the term is asked for its day or for its instant:
        the day view and the instant view of C06 cut the time line at the same places *)
